@@ -215,6 +215,11 @@ def concurrent_differences(ctx, mod, rounds, nthreads):
     CC.concurrent_pure(ctx, 'differences', [mod, common], f, pairs, rounds, nthreads)
 
 
+def relativedelta_rule(month, week, hour=2):
+    from dateutil import relativedelta as mod
+    return mod.relativedelta(hours=+hour, month=month, day=1, weekday=mod.SU(+week))
+
+
 def directed(ctx, R):
     # every month-end against every other month-end within two years, both orders (dates)
     ends = [D.date(y, m, calendar.monthrange(y, m)[1]) for y in (1999, 2000) for m in range(1, 13)]
@@ -237,6 +242,22 @@ def directed(ctx, R):
                 check_pair(ctx, other, base, 'naive-naive', R)
                 check_pair(ctx, base, other, 'naive-naive', R)
                 ctx.count('directed_unit_boundaries')
+    # aware datetimes of a zone with daylight saving time: the difference is wall-clock arithmetic, also when the
+    # month-shifted dt2 is a wall time that the zone skips (or repeats) on that day
+    from dateutil import tz
+    for z, gap, fold in ((tz.tzstr('EST5EDT,M3.2.0/2,M11.1.0/2'), D.datetime(2021, 3, 14, 2, 30), D.datetime(2021, 11, 7, 1, 30)),
+                         (tz.gettz('Europe/London'), D.datetime(2021, 3, 28, 1, 30), D.datetime(2021, 10, 31, 1, 30)),
+                         (tz.tzrange('AEST', 36000, 'AEDT', 39600, relativedelta_rule(10, 1), relativedelta_rule(4, 1, 3)), D.datetime(2021, 10, 3, 2, 30), D.datetime(2021, 4, 4, 2, 30))):
+        if z is None:
+            continue
+        for special in (gap, fold):
+            for months in (-13, -1, 1, 2, 12):
+                dt2 = rd_ref.shift_clip(special, -months).replace(tzinfo=z)
+                for rest in (D.timedelta(days=6, hours=9, minutes=30), D.timedelta(hours=-5), D.timedelta(seconds=1), D.timedelta(0)):
+                    dt1 = (special + rest).replace(tzinfo=z)
+                    check_pair(ctx, dt1, dt2, 'aware-aware', R)
+                    check_pair(ctx, dt2, dt1, 'aware-aware', R)
+                    ctx.count('directed_dst_zone_pairs')
     # extremes
     lo, hi = D.datetime(1, 1, 1), D.datetime(9999, 12, 31, 23, 59, 59, 999999)
     for a, b in ((lo, hi), (hi, lo), (lo.date(), hi.date()), (hi.date(), lo), (D.date(1, 1, 31), D.date(9999, 2, 28))):
@@ -261,6 +282,8 @@ def floors(agg, tier):
         out.append('monitor internal errors')
     from vf import concurrent as CC
     CC.floor(c, 'differences', 1500, 1000, out)
+    if c.get('directed_dst_zone_pairs', 0) < 60:
+        out.append('only %d directed pairs in daylight-saving zones' % c.get('directed_dst_zone_pairs', 0))
     return out
 
 
